@@ -197,7 +197,7 @@ fn essential(prop: &str) -> Vec<Op> {
 impl Swarm {
     pub fn draw(prop: &str, rng: &mut Rng, thorough: bool) -> Swarm {
         let mut sw = Self::draw_inner(prop, rng, thorough);
-        if matches!(prop, "C01" | "C02" | "C07" | "C12" | "C13" | "C11" | "C18") && rng.below(70) == 0 {
+        if matches!(prop, "C01" | "C02" | "C07" | "C12" | "C13") && rng.below(70) == 0 {
             sw.broad = true;
             sw.n_dims = 1;
             sw.hierarchy_pct = 0;
